@@ -13,6 +13,7 @@ import (
 	"github.com/netflix/rend/handlers"
 	"github.com/netflix/rend/handlers/memcached/chunked"
 	"github.com/netflix/rend/handlers/memcached/std"
+	"github.com/netflix/rend/metrics"
 	"github.com/netflix/rend/orcas"
 	"github.com/netflix/rend/protocol"
 	"github.com/netflix/rend/protocol/binprot"
@@ -325,6 +326,9 @@ func (d *deployment) runDisconnect(proto string, stream []byte, cut int, overlap
 func (d *deployment) runDisconnectMode(proto string, stream []byte, cut int, overlap, gone bool) (clause, detail string) {
 	synctest.Wait()
 	base := runtime.NumGoroutine()
+	regs := metrics.VerifRegistrySizes()
+	locksets := orcas.VerifSwapLockCursor(0)
+	orcas.VerifSwapLockCursor(locksets)
 	d.mu.Lock()
 	from := len(d.conns)
 	d.mu.Unlock()
@@ -406,6 +410,12 @@ func (d *deployment) runDisconnectMode(proto string, stream []byte, cut int, ove
 	}
 	if open := d.openBackendConns(from); len(open) > 0 {
 		return "backend-conn-left-open", fmt.Sprintf("backend connections opened for the client and not closed: %v", open)
+	}
+	if now := metrics.VerifRegistrySizes(); now != regs {
+		return "registry-slot-leak", fmt.Sprintf("slots taken in the metrics registries (counters, histograms, int/float gauges, int/float callbacks, bulk callbacks) before the connection %v, after it ended %v: the tables are of fixed size, a process that loses a slot per connection ends with a panic", regs, now)
+	}
+	if now := orcas.VerifSwapLockCursor(locksets); now != locksets {
+		return "registry-slot-leak", fmt.Sprintf("lock sets handed out before the connection %d, after it ended %d (1024 exist)", locksets, now)
 	}
 	if n := runtime.NumGoroutine(); n != base {
 		return "goroutine-leak", fmt.Sprintf("%d goroutines before the connection, %d after it ended", base, n)
